@@ -12,6 +12,7 @@ import (
 	"regexp"
 	"sort"
 	"strings"
+	"unicode/utf8"
 
 	"go.opentelemetry.io/collector/pdata/pcommon"
 
@@ -94,9 +95,30 @@ func InitialLabels(r Rec) map[string]string {
 		m["msg"] = r.Line
 	}
 	for _, kv := range r.Labels {
-		m[kv.K] = kv.V
+		m[RefKeyToLabel(kv.K)] = kv.V // attribute names become label names
 	}
 	return m
+}
+
+// RefKeyToLabel is the character-wise specification of the name sanitiser: every byte that is not an ASCII letter,
+// digit or underscore (every invalid byte, every byte of a multi-byte character's encoding counted as one character)
+// becomes an underscore, and a name cannot start with a digit.
+func RefKeyToLabel(key string) string {
+	var sb strings.Builder
+	for i := 0; i < len(key); {
+		r, w := utf8.DecodeRuneInString(key[i:])
+		valid := w == 1 && (r == '_' || (r >= 'a' && r <= 'z') || (r >= 'A' && r <= 'Z') || (r >= '0' && r <= '9'))
+		if i == 0 && w == 1 && r >= '0' && r <= '9' {
+			sb.WriteByte('_')
+		}
+		if valid {
+			sb.WriteByte(byte(r))
+		} else {
+			sb.WriteByte('_')
+		}
+		i += w
+	}
+	return sb.String()
 }
 
 // MatchLabel is the reference semantics of a selector matcher.
